@@ -75,10 +75,10 @@ the array intact or with a fault that is not a stack fault -/
 theorem rule_code_stays_inside_the_stack (is : List Instr) (s : St) (h : VOK s.vm) : EndSafe (Action.runLoop is s) := runLoop_safe is s h
 
 /-- **the pipeline, every font and text**: whatever the model reports as an error, it is never an access outside `_stack[]` -/
-theorem no_code_leaves_the_stack (font : Font) (text : List Nat) (fuel : Nat) (hi : font.ipos ≤ font.passes.size)
-    (hL : ∀ k, k < font.passes.size → 1 ≤ (font.passes.getD k default).maxLoop) {w : String} (e : shape font text fuel = .error w) :
+theorem no_code_leaves_the_stack (font : Font) (text : List Nat) (fuel : Nat) (dir : Nat) (hi : font.ipos ≤ font.passes.size)
+    (hL : ∀ k, k < font.passes.size → 1 ≤ (font.passes.getD k default).maxLoop) {w : String} (e : shape font text fuel dir = .error w) :
     w ≠ "stack" := by
-  rcases shape_error font text fuel hi hL e with ⟨p, c, s, h⟩ | h
+  rcases shape_error font text fuel dir hi hL e with ⟨p, c, s, h⟩ | h
   · exact findNDoRule_noStack p c s h
   · rw [h]; decide
 
@@ -113,14 +113,14 @@ theorem pass_stays_within_loop_bound (p : PassT) (hL : 1 ≤ p.maxLoop) (c : Ctx
     (e : runPass p c fuel = .ok (some c')) : c'.vExceeded = c.vExceeded := runPass_within_bound p hL c fuel h e
 
 /-- **the whole pipeline, every font and every text**: no pass's rule loop exceeds `maxRuleLoop × (slots + insertion budget + 2)` -/
-theorem pipeline_stays_within_loop_bound (font : Font) (text : List Nat) (fuel : Nat) (hi : font.ipos ≤ font.passes.size)
+theorem pipeline_stays_within_loop_bound (font : Font) (text : List Nat) (fuel : Nat) (dir : Nat) (hi : font.ipos ≤ font.passes.size)
     (hL : ∀ k, k < font.passes.size → 1 ≤ (font.passes.getD k default).maxLoop) {c : Ctx} {ci : List Assoc.CI}
-    (e : shape font text fuel = .ok (some (c, ci))) : c.vExceeded = false := shape_within_bound font text fuel hi hL e
+    (e : shape font text fuel dir = .ok (some (c, ci))) : c.vExceeded = false := shape_within_bound font text fuel dir hi hL e
 
 /-- the fuel of the model's recursion never ends a run -/
-theorem fuel_is_never_the_reason (font : Font) (text : List Nat) (fuel : Nat) (hi : font.ipos ≤ font.passes.size)
-    (hL : ∀ k, k < font.passes.size → 1 ≤ (font.passes.getD k default).maxLoop) {w : String} (e : shape font text fuel = .error w) :
-    (∃ p c s, findNDoRule p c s = .error w) ∨ w = "associateChars: char-info access out of range" := shape_error font text fuel hi hL e
+theorem fuel_is_never_the_reason (font : Font) (text : List Nat) (fuel : Nat) (dir : Nat) (hi : font.ipos ≤ font.passes.size)
+    (hL : ∀ k, k < font.passes.size → 1 ≤ (font.passes.getD k default).maxLoop) {w : String} (e : shape font text fuel dir = .error w) :
+    (∃ p c s, findNDoRule p c s = .error w) ∨ w = "associateChars: char-info access out of range" := shape_error font text fuel dir hi hL e
 
 /-! non-vacuity: the rule `b c c > next; next; delete; return -4` (the shape of the defect's witness) on `aaaaab cccccccc`:
 one deletion, 13 iterations against a bound of 912, not exceeded -/
